@@ -32,8 +32,8 @@ Lemma built_eqb_eq a b : built_eqb a b = true -> a = b.
 Proof.
   destruct a as [a1 a2 a3 a4 a5 a6 a7 a8 a9 a10 a11 a12], b as [c1 c2 c3 c4 c5 c6 c7 c8 c9 c10 c11 c12]. unfold built_eqb.
   cbn [b_ver b_branch b_expiry b_lock b_tin b_tout b_sap b_orc b_iw b_fee_paid b_dec b_sig].
-  rewrite !andb_true_iff, !Z.eqb_eq, ver_eqb_eq, lz_eq, !bool_eqb_eq.
-  rewrite (list_eqb_spec pair_z_eqb pair_z_eqb_eq).
+  rewrite !andb_true_iff, !Z.eqb_eq, ver_eqb_eq, !bool_eqb_eq.
+  rewrite !(list_eqb_spec pair_z_eqb pair_z_eqb_eq).
   rewrite !(option_eqb_spec shb_eqb shb_eqb_eq), (option_eqb_spec Z.eqb Z.eqb_eq).
   intros (((((((((((-> & ->) & ->) & ->) & ->) & ->) & ->) & ->) & ->) & ->) & ->) & ->). reflexivity.
 Qed.
@@ -61,16 +61,36 @@ Proof.
   split; [intros (((((-> & ->) & ->) & ->) & ->) & ->); reflexivity|intros H; inversion H; subst; repeat split; reflexivity].
 Qed.
 
-Lemma model_seen_ok r hd : run_ops r [] (r_ops r) (init_hdr r) 0 = Ok hd ->
+Lemma model_seen_ok r hd : deferral_refused r = false ->
+  run_ops r [] (r_ops r) (init_hdr r) 0 = Ok hd ->
   model_seen r = match r_rule r with RZip317 => None | RLin _ => Some (req_shape r) end.
-Proof. intros H. unfold model_seen. rewrite H. destruct (r_rule r); reflexivity. Qed.
+Proof. intros D H. unfold model_seen. rewrite D, H. destruct (r_rule r); reflexivity. Qed.
 
-Lemma build_not_add_ok r e : build r = Err e -> (forall i e', e <> EAdd i e') ->
-  exists hd, run_ops r [] (r_ops r) (init_hdr r) 0 = Ok hd.
+Lemma build_not_add_ok r e : build r = Err e -> (forall i e', e <> EAdd i e') -> e <> EDeferral ->
+  deferral_refused r = false /\ exists hd, run_ops r [] (r_ops r) (init_hdr r) 0 = Ok hd.
 Proof.
-  unfold build. intros H N.
+  unfold build. intros H N ND.
+  destruct (deferral_refused r). { inversion H. congruence. }
+  split; [reflexivity|].
   destruct (run_ops r [] (r_ops r) (init_hdr r) 0) as [hd|e0|] eqn:R; [eauto| |discriminate].
   inversion H. subst. apply run_ops_err in R. destruct R as (k & o & e' & E & _). exfalso. eapply N; eauto.
+Qed.
+
+Lemma build_ok_not_refused r b : build r = Ok b -> deferral_refused r = false.
+Proof. unfold build. destruct (deferral_refused r); [discriminate|reflexivity]. Qed.
+
+Lemma build_err_deferral r : build r = Err EDeferral ->
+  is_deferred r && negb (branch_has_ironwood (branch_at (r_net r) (r_height r))) = true.
+Proof.
+  unfold build. intros H.
+  destruct (deferral_refused r) eqn:D.
+  { unfold deferral_refused in D. destruct (branch_at (r_net r) (r_height r)); exact D. }
+  destruct (run_ops r [] (r_ops r) (init_hdr r) 0) as [hd|e0|] eqn:R; [| |discriminate].
+  - apply finish_err in H.
+    destruct H as [[E _]|(fee & Fe & [C|(C & [[E _]|(bal & V & Hc)])])]; try discriminate.
+    + apply check_version_some in C. destruct C as [[q E] _]. discriminate.
+    + destruct Hc as [[E _]|[[E _]|[[E _]|[[E|E] _]]]]; discriminate.
+  - inversion H. subst e0. apply run_ops_err in R. destruct R as (k & o & e' & E & _). discriminate.
 Qed.
 
 Theorem bridge : forall c, wf_case c = true -> run_case c = true -> prop_case c = true.
@@ -85,28 +105,30 @@ Proof.
     pose proof (built_version _ _ B) as Hv.
     destruct (built_header _ _ B) as (G1 & G2 & G3 & G4 & G5 & G6).
     destruct (build_ok_inv _ _ B) as (hd & fee & R & _).
+    pose proof (build_ok_not_refused _ _ B) as DR.
     rewrite Hc, Hv, G5, G6. cbn [andb].
     assert (Fo : fee_okb (r_rule r) b = true).
     { unfold fee_okb. rewrite F4, F2. apply andb_true_intro. split; [apply Z.eqb_eq; exact F1|].
-      destruct (r_route r); cbn [andb]; auto using Z.eqb_refl. }
+      destruct (is_pczt r); cbn [andb]; auto using Z.eqb_refl. }
     assert (Ho : header_okb r b = true).
     { unfold header_okb. rewrite G1, G2, G3, G4, ver_eqb_refl, !Z.eqb_refl. reflexivity. }
-    rewrite Fo, Ho. cbn [andb]. rewrite <- Hs, (model_seen_ok _ _ R), F2.
+    rewrite Fo, Ho. cbn [andb]. rewrite <- Hs, (model_seen_ok _ _ DR R), F2.
     destruct (r_rule r); [reflexivity|apply shape_eqb_refl].
   - apply berr_eqb_eq in H. subst em.
     destruct (build_err_amount _ _ B) as [A1 A2].
     destruct e; try reflexivity.
     + destruct (A1 a eq_refl) as [P1 P2].
-      destruct (build_not_add_ok _ _ B ltac:(discriminate)) as [hd R].
-      rewrite <- Hs, (model_seen_ok _ _ R).
+      destruct (build_not_add_ok _ _ B ltac:(discriminate) ltac:(discriminate)) as [DR [hd R]].
+      rewrite <- Hs, (model_seen_ok _ _ DR R).
       replace (0 <? a) with true by lia. replace (requested_balance (r_ops r) + a =? _) with true by lia.
       cbn [andb]. destruct (r_rule r); [reflexivity|apply shape_eqb_refl].
     + destruct (A2 a eq_refl) as [P1 P2].
-      destruct (build_not_add_ok _ _ B ltac:(discriminate)) as [hd R].
-      rewrite <- Hs, (model_seen_ok _ _ R).
+      destruct (build_not_add_ok _ _ B ltac:(discriminate) ltac:(discriminate)) as [DR [hd R]].
+      rewrite <- Hs, (model_seen_ok _ _ DR R).
       replace (0 <? a) with true by lia. replace (requested_balance (r_ops r) - a =? _) with true by lia.
       cbn [andb]. destruct (r_rule r); [reflexivity|apply shape_eqb_refl].
     + destruct (build_err_target _ _ _ B) as [T1 T2]. rewrite T2. subst v. now rewrite ver_eqb_refl.
+    + now apply build_err_deferral.
     + destruct e; try reflexivity.
       destruct (build_err_add_target _ _ _ _ B) as [T1 T2]. rewrite T2.
       unfold is_propose. unfold is_true in T1.
